@@ -18,6 +18,8 @@ var extraNotes4 = map[string][2]string{
 	"C21": {"derived-answer rule for the queries", "(P3) Length / BinSize / BinPeers / ShallowestEmpty / Exists read no field of the set other than the bins, the lock and the fixed configuration (sufficient condition: a cached size would be reported for review)."},
 	"C32": {"atomic test-and-record in Debit", "(Lk2) Debit calls TransferTraffic (the read deciding the refusal) and PutTransferTraffic (the record) with the peer's lock held."},
 	"C38": {"goroutine / loop-variable rule", "(Y1) no goroutine started inside a loop in pkg/multicast reads a variable that the loop overwrites per iteration (shared loop variable under the module's go 1.17 semantics)."},
+	"C15": {"guard rule for HasPin", "(G3) HasPin can answer true only where the state-store Get under rootPinKey(ref) returned no error."},
+	"C27": {"key/items agreement; persist-after-update pairing", "(A3) in generatePathItems the append feeding the hash and the append building the item list both run on every iteration of the loop; (F2) every assignment to Table.routes[target] outside the reload callback is followed on all paths by a store.Put of the same list under route_index_."},
 	"C20": {"scan-width rule", "(K1) the byte limit of the comparison loop in Proximity / ExtendedProximity starts from a constant K with K*8 >= the function's own cap (MaxPO / ExtendedPO)."},
 }
 
